@@ -296,10 +296,11 @@ def _state_defs(ctx, is_async):
             raise asyncio.CancelledError()
         raise UserExc(cb['id'], m)
 
-    def on_timeout_sync(cb):
+    def on_timeout_sync(cb, bound=None):
         def f(event_data):
-            m = ctx.m_of(event_data)
-            log.append([K_CTIMEOUT, cb['id'], m, _state_int(event_data.model), ctx.now()])
+            # a handler given by NAME is a method of one model: it reports the model it belongs to
+            m = ctx.m_of(event_data) if bound is None else bound
+            log.append([K_CTIMEOUT, cb['id'], m, _state_int(ctx.models[m]) if m < len(ctx.models) else 999, ctx.now()])
             if cb['act'] is not None:
                 who, e = cb['act']
                 tm = m if who is None else who
@@ -314,10 +315,10 @@ def _state_defs(ctx, is_async):
                 fail(cb, m)
         return f
 
-    def on_timeout_async(cb):
+    def on_timeout_async(cb, bound=None):
         async def f(event_data):
-            m = ctx.m_of(event_data)
-            log.append([K_CTIMEOUT, cb['id'], m, _state_int(event_data.model), ctx.now()])
+            m = ctx.m_of(event_data) if bound is None else bound
+            log.append([K_CTIMEOUT, cb['id'], m, _state_int(ctx.models[m]) if m < len(ctx.models) else 999, ctx.now()])
             if cb['act'] is not None:
                 who, e = cb['act']
                 tm = m if who is None else who
@@ -343,7 +344,22 @@ def _state_defs(ctx, is_async):
             mk = on_timeout_async if is_async else on_timeout_sync
             d['on_timeout'] = [mk(cb) for cb in s['on_timeout']]      # exactly the case's handlers, possibly none
         out.append(d)
-    ctx.make_handler = on_timeout_async if is_async else on_timeout_sync
+    mk = on_timeout_async if is_async else on_timeout_sync
+
+    def make_handler(cb):
+        """the recorder itself, or — for callbacks marked 'named' — the NAME of a method every model has; the
+        library resolves the name on the model whose timer expired"""
+        if not cb.get('named'):
+            return mk(cb)
+        name = 'ot_%d' % cb['id']
+        for i, mo in enumerate(ctx.models):
+            if not hasattr(mo, name):
+                setattr(mo, name, mk(cb, bound=i))
+        return name
+    ctx.make_handler = make_handler
+    for s, d in zip(case['states'], out):
+        if s['given']:
+            d['on_timeout'] = [make_handler(cb) for cb in s['on_timeout']]
     return out
 
 
@@ -572,7 +588,9 @@ RULE = ('cases = @add_state_features(Timeout) on Machine / HierarchicalMachine (
         'state change its on_timeout list at run time (assignment through the property, or emptied and refilled with '
         'state.add_callback) right after an event and at random places, half of the given timeout states then being '
         'created with on_timeout=[] (entered with nothing to call, handlers registered during the visit; also handlers '
-        'removed during the visit); the expiry marker TFired is logged by a subclass of the feature whose '
+        'removed during the visit); half of the on_timeout handlers are given as STRINGS naming a method that every '
+        'model has (the method reports the model it belongs to: each expiry must run the handlers of the model that timed '
+        'out); the expiry marker TFired is logged by a subclass of the feature whose '
         '_process_timeout logs and delegates, so the on_timeout lists hold exactly the case\'s handlers, possibly none; re-trigger chains that '
         'do not die out (state-only pre-simulation, then the model\'s fuel) lose their triggers; every 11th case has a '
         'state with timeout > 0 and no on_timeout (construction must raise AttributeError).  Threads: '
@@ -730,6 +748,9 @@ def gen(rng, i, tier):
                 ([[1, rng.choice([0, 1])]] if rng.random() < 0.5 else [])
         if rng.random() < 0.5:
             hist.insert(rng.randrange(len(hist) + 1), [3, rng.choice(timed), new_list(), rng.randrange(2)])
+    for lst in [s['on_timeout'] for s in states] + [op[2] for op in hist if op[0] == 3]:
+        for cb in lst:
+            cb['named'] = rng.random() < 0.5      # given as the name of a model method instead of a callable
     if rng.random() < 0.5:
         # re-enter and leave again at the same instant: a pair of events of one model with nothing in between
         k = rng.randrange(len(hist) + 1)
